@@ -133,6 +133,9 @@ class Sim:
             self.fired(op["f"])  # a call the library had to refuse, and did
         self.pool[i] = out
         self.ops.append(op)
+        if out[0] == "ok" and op["k"].startswith("reg."):
+            # accepted registrations are part of the world: a successor process re-applies them
+            self.user.setdefault("dyn_regs", []).append(op)
         if out[0] == "ok":
             try:
                 ofp = F.fp(out[1])
